@@ -45,6 +45,10 @@ enum Mode {
 pub struct Chooser {
     mode: Mode,
     pub trace: Vec<(&'static str, u32, u32)>,
+    /// Structure of the trace, for the minimiser: each span is one element
+    /// of a drawn-length list, `(start, end, index of the length choice)`
+    pub spans: Vec<(usize, usize, usize)>,
+    open: Vec<usize>,
 }
 
 impl Chooser {
@@ -52,12 +56,16 @@ impl Chooser {
         Chooser {
             mode: Mode::Search(Rng::new(seed)),
             trace: vec![],
+            spans: vec![],
+            open: vec![],
         }
     }
     pub fn replay(values: Vec<u32>) -> Self {
         Chooser {
             mode: Mode::Replay(values, 0),
             trace: vec![],
+            spans: vec![],
+            open: vec![],
         }
     }
     /// Uniform value in `0..n`
@@ -75,6 +83,22 @@ impl Chooser {
         };
         self.trace.push((site, n, v));
         v
+    }
+    /// Position in the trace of the next recorded choice
+    pub fn mark(&self) -> usize {
+        self.trace.len()
+    }
+    /// Starts one element of a list whose length was drawn at `count_at`
+    pub fn span_begin(&mut self) {
+        self.open.push(self.trace.len());
+    }
+    pub fn span_end(&mut self, count_at: usize) {
+        if let Some(start) = self.open.pop() {
+            let end = self.trace.len();
+            if end > start {
+                self.spans.push((start, end, count_at));
+            }
+        }
     }
     pub fn values(&self) -> Vec<u32> {
         self.trace.iter().map(|t| t.2).collect()
